@@ -22,6 +22,7 @@ sequential workload, after the gather of the concurrent one, and in the replay i
 a request replayed on a fresh instance AFTER the shared run differing from the same
 request on a fresh instance BEFORE it (instances share nothing).
 """
+import asyncio
 import hashlib
 import itertools
 import json
@@ -441,9 +442,91 @@ def cancel_cases(tier, seed):
                "answers": {}, "default": "hash", "tag": g}
 
 
+V2TEACH_SRC = (
+    "flow main\n  activate teacher\n  activate forgetter\n  activate asker\n  match Never()\n\n"
+    "flow teacher\n  match Teach()\n  $src = await FetchSourceAction()\n  await AddFlowsAction(config=$src)\n  send Learned()\n\n"
+    "flow forgetter\n  match Forget()\n  await RemoveFlowsAction(flow_ids=[\"taught a\"])\n  send Forgot()\n\n"
+    "flow asker\n  match Ask()\n  $d = await CheckFlowDefinedAction(flow_id=\"taught a\")\n  send Result(defined=$d)\n"
+)
+
+
+def v2teach_cases(tier, seed):
+    """Colang 2.x, flows added / removed at run time (AddFlowsAction / RemoveFlowsAction: what the library's flow-generation flows
+    do with LLM-written flows): two conversations on ONE LLMRails instance, each threading its own state through
+    LLMRails.process_events_async; what one conversation learned or forgot must not show in the other."""
+    rng = random.Random(3700 + seed)
+    for i in range(12 if tier == "quick" else 120):
+        convs = [[rng.choice(["Teach", "Ask", "Ask", "Forget"]) for _ in range(rng.randint(2, 4))] for _c in range(2)]
+        if i < 4:
+            convs = [["Teach", "Ask"], ["Ask", "Ask"]] if i % 2 == 0 else [["Ask", "Forget", "Ask"], ["Teach", "Ask", "Ask"]]
+        order = rand_interleaving(rng, [len(c) for c in convs])
+        yield {"wl": "v2teach", "fam": "v2teach", "mode": "v2", "k": 0, "m": 0, "convs": convs, "answers": {}, "default": "none", "order": order}
+
+
+def run_v2teach(case):
+    W = _W
+    L = W["L"]
+    rails = W["rails"]
+    convs, order = case["convs"], case["order"]
+    base = {"key": json.dumps(["v2teach", convs, order]), "wl": "v2teach", "fam": "v2teach", "mode": "v2",
+            "sample": {"workload": "v2teach", "program": V2TEACH_SRC, "conversations": convs, "schedule": order}}
+    obs = {"wl_v2teach": 1, "fam_v2teach": 1, "mode_v2": 1, "turns_compared": 0, "v2teach_flag_values_seen": 0}
+
+    def mk():
+        cfg = L["RailsConfig"].from_content(V2TEACH_SRC, 'colang_version: "2.x"\n' + rails.MAIN_MODELS)
+        app = L["LLMRails"](cfg, llm=L["RecLLM"](script=lambda prompt: "", log=rails.Log()))
+
+        async def fetch_source():
+            return "flow taught a\n  send Bonjour()\n"
+
+        app.register_action(fetch_source, "FetchSourceAction")
+        return app
+
+    async def turn(app, state, ev):
+        out, state = await asyncio.wait_for(app.process_events_async([{"type": ev}], state), 60)
+        return [(o.get("type"), o.get("defined")) for o in out if o.get("type") in ("Learned", "Forgot", "Result")], state
+
+    async def play():
+        shared = mk()
+        states = [None] * len(convs)
+        pos = [0] * len(convs)
+        got = [[] for _ in convs]
+        for who in order:
+            r, states[who] = await turn(shared, states[who], convs[who][pos[who]])
+            pos[who] += 1
+            got[who].append(r)
+        alone = []
+        for c in convs:
+            app, st, res = mk(), None, []
+            for ev in c:
+                r, st = await turn(app, st, ev)
+                res.append(r)
+            alone.append(res)
+        return got, alone
+
+    steps = W.get("steps")
+    try:
+        got, alone = _run(play())
+    except Exception as e:
+        return dict(base, verdict="inconclusive", reason="v2teach-run-raised:%s" % type(e).__name__, detail=str(e)[:300], observed=obs, nontrivial=False)
+    flags = set()
+    for who in range(len(convs)):
+        for t, (a, b) in enumerate(zip(got[who], alone[who])):
+            obs["turns_compared"] += 1
+            flags.update(x[1] for x in b if x[0] == "Result")
+            if a != b:
+                return dict(base, verdict="violated", mech=["v2-runtime-flows-shared-between-conversations"], observed=obs, nontrivial=True,
+                            witness={"program": V2TEACH_SRC, "conversations": convs, "schedule": order, "conversation": who, "turn": t, "event": convs[who][t],
+                                     "on_shared_instance": a, "alone_on_fresh_instance": b, "driven_through": "LLMRails.process_events_async"})
+    obs["v2teach_flag_values_seen"] = len(flags)
+    if not flags:
+        return dict(base, verdict="inconclusive", reason="expected: no Ask in the sequence", observed=obs, nontrivial=False)
+    return dict(base, verdict="held", observed=obs, nontrivial=len(set(order)) > 1)
+
+
 def cases(tier, seed):
     i = 0
-    a, b = itertools.chain(seq_cases(tier, seed), seq_cases_v2(tier, seed)), itertools.chain(conc_cases(tier, seed), cancel_cases(tier, seed))
+    a, b = itertools.chain(seq_cases(tier, seed), seq_cases_v2(tier, seed), v2teach_cases(tier, seed)), itertools.chain(conc_cases(tier, seed), cancel_cases(tier, seed))
     # alternate so that a --limit run sees both workloads
     for x, y in itertools.zip_longest(a, b):
         for c in (x, y):
@@ -1054,6 +1137,8 @@ def run_case(case):
     if not _W:
         setup_worker()
     wl = case["wl"]
+    if wl == "v2teach":
+        return run_v2teach(case)
     convs = case["convs"]
     n = len(convs)
     sched = case["order"] if wl == "seq" else (["cancel at LLM call", case["cancel_at"]] if wl == "cancel" else [case["start"], case["release"]])
